@@ -463,6 +463,11 @@ pub fn ascii_blocks_with(filler: char) -> Vec<String> {
 /// that skips "uninteresting" bytes a word at a time, and resumes after a rejected candidate,
 /// gets wrong.
 pub fn sparse_blocks(sigma: &[char], tier: Tier) -> Vec<String> {
+    sparse_blocks_with(sigma, sigma, tier)
+}
+
+/// singles over `sigma`, pairs (x, y) with x, y over `pair_sigma`
+pub fn sparse_blocks_with(sigma: &[char], pair_sigma: &[char], tier: Tier) -> Vec<String> {
     let totals: &[usize] = tier.pick(&[17, 26, 33], &[16, 17, 24, 26, 33, 40, 41]);
     let gaps: &[usize] = tier.pick(&[0, 1, 2, 3, 5], &[0, 1, 2, 3, 4, 5, 6, 7, 9]);
     let mut out = Vec::new();
@@ -480,11 +485,14 @@ pub fn sparse_blocks(sigma: &[char], tier: Tier) -> Vec<String> {
                     single.push('a');
                 }
                 out.push(single);
+                if !pair_sigma.contains(&x) {
+                    continue;
+                }
                 for &gap in gaps {
                     if gap > tail {
                         continue;
                     }
-                    for &y in sigma {
+                    for &y in pair_sigma {
                         let mut t = s.clone();
                         for _ in 0..gap {
                             t.push('a');
@@ -512,7 +520,8 @@ where
     let mut placed = pumped(sigma, &PUMP_LENGTHS);
     placed.extend(ascii_blocks_with('a'));
     placed.extend(ascii_blocks_with('0'));
-    placed.extend(sparse_blocks(sigma, tier));
+    // pairs over the first 16 symbols (every alphabet lists its byte-shape and mapping classes first)
+    placed.extend(sparse_blocks_with(sigma, &sigma[..sigma.len().min(16)], tier));
     let long = pumped(&sigma[..sigma.len().min(6)], &PUMP_LENGTHS_LONG);
     let mut st = run_family_placed(&placed, &placements(tier), &f);
     st.merge(run_family(&long, &f));
